@@ -172,7 +172,7 @@ def cs_wire(img) -> str:
         if isinstance(x, int):
             return "i%d" % x
         if isinstance(x, str) and x.startswith("<"):
-            return "o"
+            return "s"
         return "n" + C.hx(x.encode("latin-1"))
     if "cslist" in img:
         if img["cslist"] is None:
@@ -1018,6 +1018,166 @@ def run_inline(ctx: C.Ctx) -> None:
     ask_and_compare(ctx, lines, impl, inputs)
 
 
+
+# ------------------------------------------------------------------ BI/ID dictionary assembly, do_EI, LTImage (glue)
+
+def val_wire(o) -> str:
+    from pdfminer.psparser import PSLiteral
+    if isinstance(o, bool):
+        return "b1" if o else "b0"
+    if isinstance(o, int):
+        return "i%d" % o
+    if isinstance(o, W.Name):
+        return "n" + C.hx(o.b)
+    if isinstance(o, PSLiteral):
+        nm = o.name if isinstance(o.name, bytes) else o.name.encode("latin-1")
+        return "n" + C.hx(nm)
+    if isinstance(o, (list, tuple)):
+        return ",".join(["["] + [val_wire(x) for x in o] + ["]"])
+    if o is None:
+        return "none"
+    if isinstance(o, bytes) and o:
+        return "s"
+    return "o"
+
+
+DICT_KEYS = ["W", "Width", "H", "Height", "BPC", "BitsPerComponent", "CS", "ColorSpace", "F", "Filter", "IM", "ImageMask",
+             "D", "Decode", "DP", "I", "Intent", "X"]
+CS_NAMES = ["G", "RGB", "CMYK", "I", "DeviceGray", "DeviceRGB", "DeviceCMYK", "Indexed", "CalGray", "CalRGB", "Lab", "Pattern", "Zz"]
+FLT_NAMES = ["A85", "ASCII85Decode", "Fl", "FlateDecode", "AHx", "DCT", "LZW", "RL", "Zz"]
+
+
+def gen_dict_objs(rng):
+    """Operand list between BI and ID: mostly a well-formed image dictionary, with rare keys/values of every kind."""
+    objs = []
+    n = rng.choice([2, 3, 4, 4, 5, 6])
+    keys = rng.sample(DICT_KEYS, n)
+    if rng.random() < 0.7:
+        for must in (rng.choice(["W", "Width"]), rng.choice(["H", "Height"])):
+            if must not in keys:
+                keys.append(must)
+    if rng.random() < 0.15:
+        keys.append(rng.choice(keys))          # a key twice: the later value wins
+    rng.shuffle(keys)
+    for k in keys:
+        objs.append(W.Name(k.encode()))
+        if k in ("W", "Width", "H", "Height"):
+            v = rng.choice([1, 2, 3, 5, 8, 0, -1, 70000, True, 1.5, W.Name(b"x")]) if rng.random() < 0.25 else rng.randint(1, 9)
+        elif k in ("BPC", "BitsPerComponent"):
+            v = rng.choice([1, 2, 4, 8, 8, 16, 0, 3, False, 8.0])
+        elif k in ("CS", "ColorSpace"):
+            r = rng.random()
+            if r < 0.6:
+                v = W.Name(rng.choice(CS_NAMES).encode())
+            elif r < 0.85:
+                v = [W.Name(rng.choice(CS_NAMES).encode()), W.Name(rng.choice(CS_NAMES).encode()), rng.randint(0, 255), b"\x00\xff"]
+            else:
+                v = rng.choice([[], 3, b"str", [7, W.Name(b"G")]])
+        elif k in ("F", "Filter"):
+            r = rng.random()
+            if r < 0.5:
+                v = W.Name(rng.choice(FLT_NAMES).encode())
+            elif r < 0.85:
+                v = [W.Name(rng.choice(FLT_NAMES).encode()) for _ in range(rng.randint(1, 3))]
+            else:
+                v = rng.choice([[], 5, True, [3, W.Name(b"A85")], b"s"])
+        elif k in ("IM", "ImageMask", "I"):
+            v = rng.choice([True, False, True, 1, W.Name(b"true")])
+        else:
+            v = rng.choice([[0, 1], 1.0, b"x", W.Name(b"n"), 7, {"K": 1}])
+        objs.append(v)
+    if rng.random() < 0.08 and objs:
+        objs.pop()                                  # odd number of operands
+    return objs
+
+
+class _RecDevice:
+    def __init__(self):
+        self.images = []
+
+    def begin_figure(self, *a):
+        pass
+
+    def end_figure(self, *a):
+        pass
+
+    def render_image(self, name, stream):
+        from pdfminer.layout import LTImage
+        self.images.append(LTImage(name, stream, (0, 0, 1, 1)))
+
+
+def impl_inline_dict(objs, inp: bytes, bufsiz: int) -> str:
+    from pdfminer import pdfinterp as PI
+    from pdfminer.pdftypes import PDFStream
+    from pdfminer.psparser import PSEOF, PSKeyword
+    head = b"BI " + b" ".join(W.ser(o) for o in objs) + b" ID"
+    content = head + b" " + inp
+    p = PI.PDFContentParser([PDFStream({}, content)])
+    p.BUFSIZ = bufsiz
+    try:
+        (pos, obj) = p.nextobject()
+    except PSEOF:
+        return "E:noimage"
+    except (IndexError, TypeError) as e:
+        return "E:" + type(e).__name__
+    except Exception:  # noqa: BLE001
+        return "E:noimage"
+    if not isinstance(obj, PDFStream):
+        return "E:noimage"
+    after = p.bufpos + (p.charpos if p.buf else 0)
+    push_ei = False
+    try:
+        (pos2, obj2) = p.nextobject()
+        push_ei = isinstance(obj2, PSKeyword) and obj2 is p.KEYWORD_EI and pos2 == pos
+    except Exception:  # noqa: BLE001
+        pass
+    size = PI.inline_image_size(obj.attrs)
+    dev = _RecDevice()
+    it = PI.PDFPageInterpreter(PI.PDFResourceManager(), dev)
+    it.do_EI(obj)
+    if dev.images:
+        lt = dev.images[0]
+        ltxt = "src=%s/%s;bits=%s;cs=%s;im=%s" % (val_wire(lt.srcsize[0]), val_wire(lt.srcsize[1]), val_wire(lt.bits),
+                                                  "|".join(val_wire(x) for x in lt.colorspace), val_wire(lt.imagemask))
+    else:
+        ltxt = "none"
+    return "OK ei=%d size=%s data=%s consumed=%d lt=%s" % (push_ei, "-" if size is None else size, C.hx(obj.rawdata or b""),
+                                                             after - (len(head) + 1), ltxt)
+
+
+def run_inline_dict(ctx: C.Ctx) -> None:
+    rng = ctx.rng
+    lines, impl, inputs = [], [], []
+    for i in range(ctx.n(1500, 30000)):
+        objs = gen_dict_objs(rng)
+        data = gen_inline_data(rng)
+        sep = rng.choice([b"\n", b"\r\n", b"\r", b" ", b""])
+        if rng.random() < 0.3:
+            body = bytes(rng.choice(b"ab!~>z") for _ in range(rng.randint(0, 6))) + b"~>" + rng.choice([b"\n", b" ", b""]) + b"EI\n Q"
+        else:
+            body = data + sep + b"EI" + rng.choice([b"\n", b" ", b"\t", b""]) + rng.choice([b"", b"Q", b"EI "])
+        wire = ",".join(val_wire(o) for o in objs) or "-"
+        bs = rng.choice([1, 3, 7, 4096, 4096])
+        lines.append("inlinedict %s %s" % (wire, C.hx(body)))
+        r = impl_inline_dict(objs, body, bs)
+        impl.append(r)
+        inputs.append(("inlinedict", {"objs": wire, "input": body.hex(), "bufsiz": bs}))
+        ctx.case(("idict", wire, body), True, branch="inlinedict:" + (r.split(" ")[0] if r.startswith("E:") else
+                                                                      ("lt" if not r.endswith("lt=none") else "no-lt")))
+        if " size=-" not in r and r.startswith("OK"):
+            ctx.branch("inlinedict:size-known")
+        if r.startswith("OK ei=0"):
+            ctx.branch("inlinedict:a85-marker")
+    if ctx.driver is None:
+        return
+    outs = ctx.driver.ask(lines)
+    for inp, i_out, m_out in zip(inputs, impl, outs):
+        if m_out in ("E:dropped", "E:EOF"):
+            m_out = "E:noimage"
+        if i_out != m_out:
+            ctx.disagree(inp[0], inp[1], i_out[:300], m_out[:300])
+
+
 # ------------------------------------------------------------------ translated definitions + reader twin
 
 def run_small(ctx: C.Ctx) -> None:
@@ -1097,4 +1257,5 @@ def run(ctx: C.Ctx) -> None:
     run_small(ctx)
     run_export(ctx)
     run_inline(ctx)
+    run_inline_dict(ctx)
     run_pipeline_cases(ctx)
